@@ -138,7 +138,7 @@ def dupkeys_suite(ctx):
 
 def suites(ctx):
     common.import_pyrefact()
-    return [flow_suite(ctx), dupkeys_suite(ctx), sweep.rules_suite(ctx, quick_n=70)]
+    return [flow_suite(ctx), dupkeys_suite(ctx), sweep.rules_suite(ctx, quick_n=70), sweep.pipeline_steps_suite(ctx)]
 
 
 def match_known(d, known):
